@@ -1076,3 +1076,60 @@ def unquoted_contracts():
     o.cases = [(cls, {"value": "str", "__cls__": cls}) for cls in ("ODLDecoder", "PDSLabelDecoder")]
     out.append(o)
     return out
+
+
+def date_contracts():
+    """PVLEncoder.encode_date / encode_datetime (C14): the year is written with four digits, month and day by strftime, and a
+    date-time is the date text, 'T', and the time text OF THE SAME VALUE"""
+    from ..pyvc.timetheory import parts_of, fmt
+    E = "pvl.encoder."
+    out = []
+
+    def F(a):
+        f = a["value"].info["fields"]
+        return tuple(f[k] for k in ("hour", "minute", "second", "microsecond"))
+
+    def date_post(pre, post, a, r):
+        p = parts_of(r)
+        ok = (len(p) == 3 and p[0][0] == "int" and p[0][1] == "04d" and p[1] == ("lit", "-") and p[2][0] == "strftime" and p[2][1] == "%m-%d")
+        out_ = [("the text is <year, four digits>-<month>-<day of the value>", z3.BoolVal(ok))]
+        if ok:
+            out_.append(("the year written is the value's year", p[0][2] == a["value"].info["year"]))
+            out_.append(("month and day are rendered from the value itself", z3.BoolVal(all(x is y or x.eq(y) for x, y in zip(p[2][2], F(a))))))
+        return out_
+    out.append(Contract(E + "PVLEncoder.encode_date", params={"value": "timeval"}, exits=[Exit("return", res="fmt", post=date_post)],
+                        props=("C14", "C01")))
+
+    def atom(name):
+        def value(ex):
+            a = ex.st.ghost["call_args"]
+            return fmt([(name, "", F(a), a["value"].info["year"], a["value"].info["tz_none"], a["value"].info["off"])])
+        return value
+    for cls, nm in (("PVLEncoder", "encode_date"), ("PVLEncoder", "encode_time"), ("ODLEncoder", "encode_time"), ("PDSLabelEncoder", "encode_time")):
+        pass
+
+    def dt_contracts():
+        d = Contract(E + "PVLEncoder.encode_date", params={"value": "timeval"}, exits=[Exit("return", res=atom("date-text"))])
+        d.assumed = True
+        d.note = "contract in the same section"
+        ts = []
+        for cls in ("PVLEncoder", "ODLEncoder", "PDSLabelEncoder"):
+            t = Contract(E + cls + ".encode_time", params={"value": "timeval"}, exits=[Exit("return", res=atom("time-text")), Exit("ValueError")])
+            t.assumed = True
+            t.note = "contract in section encoder-time-contracts"
+            ts.append(t)
+
+        def post(pre, post_, a, r):
+            p = parts_of(r)
+            ok = (len(p) == 3 and p[0][0] == "date-text" and p[1] == ("lit", "T") and p[2][0] == "time-text")
+            out_ = [("the text is <date text>T<time text>", z3.BoolVal(ok))]
+            if ok:
+                same = lambda q: (all(x is y or x.eq(y) for x, y in zip(q[2], F(a))) and (q[3] is a["value"].info["year"] or q[3].eq(a["value"].info["year"]))   # noqa: E731
+                                  and q[4].eq(a["value"].info["tz_none"]) and q[5].eq(a["value"].info["off"]))
+                out_.append(("both parts are rendered from the value that was passed in (same fields, same zone)", z3.BoolVal(same(p[0]) and same(p[2]))))
+            return out_
+        c = Contract(E + "PVLEncoder.encode_datetime", params={"value": "timeval"}, exits=[
+            Exit("return", res="fmt", post=post), Exit("ValueError")], props=("C14", "C01"))
+        c.cases = [(cls, {"value": "timeval", "__cls__": cls}) for cls in ("PVLEncoder", "ODLEncoder", "PDSLabelEncoder", "ISISEncoder")]
+        return [d] + ts + [c]
+    return out, dt_contracts()
